@@ -17,20 +17,17 @@
   acknowledges the write and its writer refuses the entry — finding
   `C05-unstorable-key-acknowledged`, reproduced by the correspondence driver, not by this model.)
 
-  Proved about `Holds`:
+  Proved about `Holds` (history level), for symbolic facts:
     * `not_holds_gob`        — with the gob encoding a typed zero comes back as "no value";
     * `not_holds_incfail`    — with `incFailClean = false` a reloaded record whose conditional
                                Increment failed shows metadata that the next close loses;
-    * `not_holds_resurrect`  — for ANY facts: delete, re-create and delete a key of the file within
-                               one session, close: the key is back (the model's `deleteRec` drops
-                               the queued delete of an object without a file pointer, as the code does).
-  Proved in the other direction, for the single-session fragment on `p1` (`HoldsSingle`, implied by
-  `Holds`): the "every mutation marks dirty" invariant (`DOK`, for ANY facts) gives `close_view`:
-  the reloaded view is every record passed once through `LoadFromByte ∘ ConvertToByte`; with a
-  type-tagged encoding that is the identity (`single_typeTagged`), with gob exactly on values that are
-  not zero-like (`persistRecord_id_iff`, `C05_partial`).  The positive direction over several
-  sessions and over `p0` is exercised by the correspondence run only — `classify` never answers
-  `holds` (the resurrect mechanism is not governed by an extracted fact yet).
+    * `not_holds_resurrect`  — with `recreateKeepsPointer = false`: delete, re-create and delete a
+                               key of the file within one session, close: the key is back.
+  The verdict is over `Full` = `HoldsSingle` (one session on a buffered swamp; `reload_view`,
+  `single_typeTagged`, `not_single_gob`) ∧ `FailKeepsRecs` ∧ `RecreateStaysFiled` (the two
+  mechanisms above, stated for one request), each decided in both directions by its fact.  That
+  `Holds` follows when all three hold — several sessions, write interval 0 — is exercised by the
+  correspondence run, not proved.
 -/
 import Hv.Data.Persist
 import Hv.Props.C06
@@ -154,16 +151,20 @@ theorem C05_partial (cfg : Cfg) : HoldsPartial cfg := by
 
 def hZero : Hist := [(0, .set true true [{ key := "k", val := .int .i32 0 }])]
 
-theorem not_holds_gob (cfg : Cfg) (he : cfg.encoding = .gobOmitZero) : ¬ Holds cfg := by
+theorem not_single_gob (cfg : Cfg) (he : cfg.encoding = .gobOmitZero) : ¬ HoldsSingle cfg := by
   intro hh
-  have h1 := single_of_holds cfg hh Hv.C06.ar0 hZero
+  have h1 := hh Hv.C06.ar0 hZero
   cases hr : cfg.resetsFlags <;> cases hn : cfg.noEmptyLive <;> cases hi : cfg.saveReleasesImmediate <;>
-    simp [hZero, runM, init, Model.step, Model.stepCore, Model.ghost, Model.exists_, Model.abs, AL.mapV, Model.summon,
+    cases hk : cfg.keyChecked <;>
+    simp [hZero, runM, init, Model.step, Model.stepCore, Model.stepCoreV, Req.badKey, Hv.C06.validKey_k, hk, Model.ghost, Model.exists_, Model.abs, AL.mapV, Model.summon,
       Model.setLoop, Model.setOne, AL.has, AL.find, Model.createTreasure, Model.applyItem, normVal, setValue,
       setScalar, Content.fresh, Content.vis, Model.validTs, Model.itemSupplied, Model.metaFlag, itemMeta,
       Model.valueTags, Model.tsTags, Model.save, AL.insert, AL.erase, Model.settleAfterTouch, Model.withLive,
       Cfg.setters, MRec.abs, Model.closeStep, Model.closeDisk, Model.flushDisk, Model.flushStep, Model.addWaiting,
       persistRec, persistContent, loadRec, Val.zeroLike, he, hr, hn, hi] at h1
+
+theorem not_holds_gob (cfg : Cfg) (he : cfg.encoding = .gobOmitZero) : ¬ Holds cfg :=
+  fun hh => not_single_gob cfg he (single_of_holds cfg hh)
 
 /-- the witness of DESIGN §8 for the facts as extracted today (closed terms): Get shows Int32
     before the close and "no value" after -/
@@ -197,9 +198,12 @@ example : (Model.abs (runE Hv.C06.current Hv.C06.ar0 (init .p1) hRes)).map (·.1
 example : (Model.abs (runE Hv.C06.current Hv.C06.ar0 (init .p1) hFail)).map (·.2.m.exp) = [99] ∧
     (Model.abs (Model.closeStep Hv.C06.current (runE Hv.C06.current Hv.C06.ar0 (init .p1) hFail)).1).map (·.2.m.exp) = [0] := by decide
 
+theorem validKey_a : validKey "a" = true := by decide
+theorem validKey_b : validKey "b" = true := by decide
+
 /-- evaluation of a closed multi-session history with symbolic facts -/
 macro "c05_eval" "[" hs:Lean.Parser.Tactic.simpLemma,* "]" "at" h:ident : tactic => `(tactic|
-  simp [$hs,*, runE, init, Model.step, Model.stepCore, Model.ghost, Model.exists_, Model.abs, AL.mapV,
+  simp [$hs,*, runE, init, Model.step, Model.stepCore, Model.stepCoreV, Req.badKey, validKey_a, validKey_b, Model.ghost, Model.exists_, Model.abs, AL.mapV,
     Model.summon, Model.setLoop, Model.setOne, AL.has, AL.find,
     Model.createTreasure, Model.applyItem, normVal, dedupVal, setValue, setScalar, setVoid,
     Content.fresh, Content.vis, Content.ofVal, Model.validTs, Model.itemSupplied, Model.metaFlag, itemMeta,
@@ -211,17 +215,21 @@ macro "c05_eval" "[" hs:Lean.Parser.Tactic.simpLemma,* "]" "at" h:ident : tactic
     Model.closeStep, Model.closeDisk, Model.flushDisk, Model.flushStep, Model.addWaiting, persistRec, persistContent,
     Val.zeroLike, IntTy.wrap, kA, kB, hRes, hFail] at $h:ident)
 
-theorem not_holds_resurrect (cfg : Cfg) : ¬ Holds cfg := by
+theorem not_holds_resurrect (cfg : Cfg) (hp : cfg.recreateKeepsPointer = false) : ¬ Holds cfg := by
   intro hh
   have h1 := hh Hv.C06.ar0 .p1 (by decide) hRes
-  cases hr : cfg.resetsFlags <;> cases hn : cfg.noEmptyLive <;> cases he : cfg.encoding <;>
-    c05_eval [he, hr, hn] at h1
+  cases hr : cfg.resetsFlags <;> cases hn : cfg.noEmptyLive <;> cases he : cfg.encoding <;> cases hk : cfg.keyChecked <;>
+    c05_eval [he, hr, hn, hk, hp] at h1
+
+/-- with the pointer inherited the same history is read back as it was -/
+example : (Model.abs (Model.closeStep { Hv.C06.current with recreateKeepsPointer := true }
+      (runE { Hv.C06.current with recreateKeepsPointer := true } Hv.C06.ar0 (init .p1) hRes)).1).map (·.1) = ["b"] := by decide
 
 theorem not_holds_incfail (cfg : Cfg) (hc : cfg.incFailClean = false) : ¬ Holds cfg := by
   intro hh
   have h1 := hh Hv.C06.ar0 .p1 (by decide) hFail
-  cases hr : cfg.resetsFlags <;> cases hn : cfg.noEmptyLive <;> cases he : cfg.encoding <;>
-    c05_eval [he, hr, hn, hc] at h1
+  cases hr : cfg.resetsFlags <;> cases hn : cfg.noEmptyLive <;> cases he : cfg.encoding <;> cases hk : cfg.keyChecked <;>
+    cases hp : cfg.recreateKeepsPointer <;> c05_eval [he, hr, hn, hk, hp, hc] at h1
 
 /-! ### decision over the extracted facts -/
 
@@ -245,6 +253,8 @@ structure Facts where
   countMissingOk : Tri
   setErrSingle : Tri
   fltCondDirect : Tri
+  keyChecked : Tri
+  recreateKeepsPointer : Tri
   saveReleasesImmediate : Tri
   wireExpNe0 : Tri
   deriving DecidableEq, Repr
@@ -252,44 +262,130 @@ structure Facts where
 def kvFacts (f : Facts) : Hv.C06.Facts :=
   ⟨f.resetsFlags, f.metaCompare, f.tsPositive, f.voidClears, f.pushChecksType, f.setSliceReplaces,
    f.u32delReleases, f.u32delChecksType, f.incFailClean, f.noEmptyLive, f.arekAllFalse, f.countMissingOk,
-   f.setErrSingle, f.fltCondDirect, f.saveReleasesImmediate, f.wireExpNe0⟩
+   f.setErrSingle, f.fltCondDirect, f.keyChecked, f.recreateKeepsPointer, f.saveReleasesImmediate, f.wireExpNe0⟩
 
 def cfgOf (f : Facts) : Cfg :=
   { Hv.C06.cfgOf (kvFacts f) with encoding := match f.encoding with | .typeTagged => .typeTagged | _ => .gobOmitZero }
 
-/-- the findings the facts imply; the last one is unconditional: the delete path of the model
-    (`Model.deleteRec`) drops the queued delete of an object without a file pointer, as the code
-    does, and no extracted fact governs it yet -/
+/-! ### the mechanisms behind the multi-session counterexamples, one request at a time -/
+
+/-- a conditional Increment that answers "not incremented" leaves the records as they were -/
+def FailKeepsRecs (cfg : Cfg) : Prop :=
+  ∀ (ar : Arith) (now : Int) (i : Inst) (ty : NumTy) (k : Key) (by_ : Int) (cond : Option (RelOp × Int))
+    (ine ie : Option IncMeta) (v : Val) (m : Option Meta),
+    (Model.incCore cfg ar now i ty k by_ cond ine ie).r = .inc v false m →
+    (Model.incCore cfg ar now i ty k by_ cond ine ie).i.recs = i.recs
+
+theorem fail_keeps_recs (cfg : Cfg) (h : cfg.incFailClean = true) : FailKeepsRecs cfg := by
+  intro ar now i ty k by_ cond ine ie v m hr
+  unfold Model.incCore at hr ⊢
+  cases hs : Model.incStart ty (Model.createTreasure i k).1 with
+  | none => simp only [hs] at hr; cases hr
+  | some x =>
+    obtain ⟨t1, cur, u⟩ := x
+    simp only [hs] at hr ⊢
+    cases hc : condHolds ar ty cond cur with
+    | true => simp only [hc, if_true] at hr; injection hr with _ hb _; cases hb
+    | false =>
+      simp only [hc, h, if_true, Bool.false_eq_true, if_false]
+      split <;> rfl
+
+theorem not_fail_keeps_recs (cfg : Cfg) (h : cfg.incFailClean = false) : ¬ FailKeepsRecs cfg := by
+  intro hh
+  have := hh Hv.C06.ar0 0 { recs := [("a", { c := { val := .int .i64 5 } })] } (.int .i64) "a" 1 (some (.eq, 77)) none
+    (some { exp := some 200 }) (.int .i64 5) (some { exp := 200 })
+    (by simp [Model.incCore, Model.createTreasure, AL.find, Model.incStart, Content.vis, condHolds, numCmp, numWrap,
+          IntTy.wrap, IntTy.bits, IntTy.signed, numOf, numVal, Model.applyIncMeta, metaResp, h, Val.scalar])
+  revert this
+  simp [Model.incCore, Model.createTreasure, AL.find, AL.has, AL.insert, Model.incStart, Content.vis, condHolds, numCmp,
+    numWrap, IntTy.wrap, IntTy.bits, IntTy.signed, numOf, numVal, Model.applyIncMeta, Model.park, h, Val.scalar]
+
+/-- a record created under a key whose delete is still waiting for the writer keeps the file
+    pointer, so that a following delete is queued too (buffered swamps) -/
+def RecreateStaysFiled (cfg : Cfg) : Prop :=
+  ∀ (i : Inst) (k : Key) (t : MRec) (fresh : Bool), i.imm = false → AL.find k i.recs = none →
+    i.waiting.contains k = true → (Model.save cfg i k t fresh).1.filed.contains k = true
+
+theorem recreate_stays_filed (cfg : Cfg) (h : cfg.recreateKeepsPointer = true) : RecreateStaysFiled cfg := by
+  intro i k t fresh him hf hw
+  simp only [Model.save, hf, him, Bool.false_and, Bool.false_eq_true, if_false, h, hw, Bool.and_self, if_true]
+  cases hc : i.filed.contains k with
+  | true => simp only [if_true]; exact hc
+  | false => simp [hc]
+
+theorem not_recreate_stays_filed (cfg : Cfg) (h : cfg.recreateKeepsPointer = false) : ¬ RecreateStaysFiled cfg := by
+  intro hh
+  have := hh { waiting := ["a"] } "a" {} true rfl rfl (by decide)
+  revert this
+  simp [Model.save, AL.find, h]
+
+/-- **C05**, as far as it is proved in the positive direction: a session on a buffered swamp is
+    read back exactly (`HoldsSingle`), and the two mechanisms by which several sessions lose data
+    are absent.  `Holds` (any kind, any number of sessions) is refuted whenever one of the three
+    fails (`not_holds_*`); that it holds when all three do is validated by the correspondence run. -/
+def Full (cfg : Cfg) : Prop := HoldsSingle cfg ∧ FailKeepsRecs cfg ∧ RecreateStaysFiled cfg
+
 def findings (f : Facts) : List String :=
   (if f.encoding = .gobOmitZero then ["C05-zero-like-reloads-void"] else []) ++
-  (if f.incFailClean = .no then ["C05-failed-increment-leaves-trace"] else []) ++
-  ["C05-deleted-key-resurrected"]
+  (if f.incFailClean = .yes then [] else ["C05-failed-increment-leaves-trace"]) ++
+  (if f.recreateKeepsPointer = .yes then [] else ["C05-deleted-key-resurrected"])
 
 def classify (f : Facts) : Verdict :=
-  match f.encoding with
-  | .unknown => .undetermined "the record encoding of ConvertToByte / LoadFromByte was not recognised"
-  | _ =>
-    if f.incFailClean = .unknown then .undetermined "the failure path of the conditional Increment was not recognised"
-    else .violated (findings f)
+  if f.encoding = .unknown then .undetermined "the record encoding of ConvertToByte / LoadFromByte was not recognised"
+  else if f.incFailClean = .unknown then .undetermined "the failure path of the conditional Increment was not recognised"
+  else if f.recreateKeepsPointer = .unknown then .undetermined "the re-create branch of SaveFunction was not recognised"
+  else if findings f = [] then .holds
+  else .violated (findings f)
 
-theorem classify_sound (f : Facts) : (classify f).Sound (Holds (cfgOf f)) (HoldsPartial (cfgOf f)) := by
+theorem cfg_enc (f : Facts) : (cfgOf f).encoding = (match f.encoding with | .typeTagged => .typeTagged | _ => .gobOmitZero) := rfl
+theorem cfg_incFail (f : Facts) : (cfgOf f).incFailClean = f.incFailClean.isYes := by
+  simp [cfgOf, Hv.C06.cfgOf, kvFacts]
+theorem cfg_recreate (f : Facts) : (cfgOf f).recreateKeepsPointer = f.recreateKeepsPointer.isYes := by
+  simp [cfgOf, Hv.C06.cfgOf, kvFacts]
+
+theorem classify_sound (f : Facts) : (classify f).Sound (Full (cfgOf f)) (HoldsPartial (cfgOf f)) := by
   unfold classify
-  cases he : f.encoding with
-  | unknown => trivial
-  | typeTagged =>
-    by_cases hu : f.incFailClean = .unknown
-    · simp only [hu, if_true]; trivial
-    · simp only [hu, if_false]; exact ⟨not_holds_resurrect _, C05_partial _⟩
-  | gobOmitZero =>
-    by_cases hu : f.incFailClean = .unknown
-    · simp only [hu, if_true]; trivial
-    · simp only [hu, if_false]; exact ⟨not_holds_resurrect _, C05_partial _⟩
+  split
+  · trivial
+  split
+  · trivial
+  split
+  · trivial
+  rename_i he hi hp
+  split
+  · rename_i hfd
+    have he' : f.encoding = .typeTagged := by
+      cases hx : f.encoding <;> simp_all [findings]
+    have hi' : f.incFailClean = .yes := by
+      cases hx : f.incFailClean <;> simp_all [findings]
+    have hp' : f.recreateKeepsPointer = .yes := by
+      cases hx : f.recreateKeepsPointer <;> simp_all [findings]
+    exact ⟨single_typeTagged _ (by rw [cfg_enc, he']), fail_keeps_recs _ (by rw [cfg_incFail, hi']; rfl),
+           recreate_stays_filed _ (by rw [cfg_recreate, hp']; rfl)⟩
+  · rename_i hfd
+    refine ⟨fun hfull => ?_, C05_partial _⟩
+    cases hx : f.encoding with
+    | unknown => exact he hx
+    | gobOmitZero => exact not_single_gob _ (by rw [cfg_enc, hx]) hfull.1
+    | typeTagged =>
+      cases hy : f.incFailClean with
+      | unknown => exact hi hy
+      | no => exact not_fail_keeps_recs _ (by rw [cfg_incFail, hy]; rfl) hfull.2.1
+      | yes =>
+        cases hz : f.recreateKeepsPointer with
+        | unknown => exact hp hz
+        | no => exact not_recreate_stays_filed _ (by rw [cfg_recreate, hz]; rfl) hfull.2.2
+        | yes => simp [findings, hx, hy, hz] at hfd
 
-/-- each listed finding is backed by its own counterexample for the facts that list it -/
+/-- each listed finding is backed by a multi-session (or, for the encoding, single-session)
+    history on which close + reload changes what is read -/
 theorem findings_backed (f : Facts) :
     (f.encoding = .gobOmitZero → ¬ Holds (cfgOf f)) ∧
-    (f.incFailClean = .no → ¬ Holds (cfgOf f)) ∧ ¬ Holds (cfgOf f) := by
-  refine ⟨fun he => not_holds_gob _ (by simp [cfgOf, he]), fun hc => not_holds_incfail _ ?_, not_holds_resurrect _⟩
-  simp [cfgOf, Hv.C06.cfgOf, kvFacts, hc, Tri.isYes]
+    (f.incFailClean = .no → ¬ Holds (cfgOf f)) ∧
+    (f.recreateKeepsPointer = .no → ¬ Holds (cfgOf f)) := by
+  refine ⟨fun he => not_holds_gob _ (by simp [cfgOf, he]), fun hc => not_holds_incfail _ ?_,
+          fun hp => not_holds_resurrect _ ?_⟩
+  · rw [cfg_incFail, hc]; rfl
+  · rw [cfg_recreate, hp]; rfl
 
 end Hv.C05
